@@ -26,13 +26,14 @@ def sequential(run, rng, n, steps):
     return items
 
 
-def concurrent(run, rng, n, commits=6, nreaders=2):
+def concurrent(run, rng, n, commits=None, nreaders=2):
     """One writer thread committing in a loop, reader threads opening / refreshing / probing
     concurrently; the log's atomic sections give the real order of storage operations."""
     items = []
     for i in range(n):
         cfg = {"storage": rng.choice(["file", "ram"]), "compound": rng.random() < 0.7}
         seed = rng.randrange(1 << 30)
+        commits = rng.choice([6, 12])      # 12: generations cross a digit boundary (9 -> 10)
         w = ixdriver.IxWorld(**cfg)
         stop = threading.Event()
         errors = []
@@ -85,8 +86,6 @@ def concurrent(run, rng, n, commits=6, nreaders=2):
                         ok, s2 = w.guarded(name2, "refresh", held[1].refresh)
                         if ok and s2 is not held[1]:
                             held = (name2, s2)
-                        elif ok:
-                            w.readers.remove(name2)
                     w.probe(held[0], held[1])
             except Exception as ex:
                 errors.append(repr(ex))
